@@ -605,9 +605,7 @@ impl PrivateBatchProver {
 }
 
 #[cfg(quantus_network_qp_zk_circuits_verif)]
-pub fn verif_ensure_leaf_batch_compatible(
-    proofs: &[ProofWithPublicInputs<F, C, D>],
-) -> Result<()> {
+pub fn verif_ensure_leaf_batch_compatible(proofs: &[ProofWithPublicInputs<F, C, D>]) -> Result<()> {
     ensure_leaf_batch_compatible(proofs)
 }
 
